@@ -26,7 +26,7 @@ RULE = ('case = profile A: valid specification, written once per enumerated faul
 FRINGE = ['rows_unequal_1', 'rows_unequal_longer', 'rows_unequal_shorter', 'dtype_int64', 'dtype_float16', 'dtype_bool', 'ndim3',
           'missing_dataset', 'long_name_300', 'long_units', 'non_ascii_text', 'non_ascii_name', 'uvari_out_of_range',
           'unorm_out_of_range', 'no_origin', 'no_frames', 'empty_list', 'header_id_66', 'slong_out_of_range', 'empty_coordinates',
-          'window_past_end', 'window_empty', 'copy_number_256', 'origin_reference_2p30', 'record_length_odd', 'sul_sequence_10000']
+          'window_past_end', 'window_empty', 'window_to_past_end', 'window_negative_from', 'chunk_nonpositive', 'copy_number_256', 'origin_reference_2p30', 'record_length_odd', 'sul_sequence_10000']
 
 
 def gen_case(rng, tier, avoid):
@@ -120,6 +120,18 @@ def gen_case(rng, tier, avoid):
             params['window'] = {'from_idx': rc['shape'][0] + rng.choice([0, 1, 5])}
         elif fr == 'window_empty':
             params['window'] = {'from_idx': 1, 'to_idx': rng.choice([1, 0])}
+        elif fr == 'window_to_past_end':
+            # the end index reaches beyond the data (by one or more), the start is valid - down to the very last row
+            n = rc['shape'][0]
+            params['window'] = {'from_idx': rng.choice([0, max(n - 1, 0), max(n - 2, 0), rng.randint(0, max(n - 1, 0))]),
+                                'to_idx': n + rng.choice([1, 1, 2, 7])}
+        elif fr == 'window_negative_from':
+            n = rc['shape'][0]
+            params['window'] = {'from_idx': -rng.choice([1, 1, 2, n, n + 3])}
+            if rng.random() < 0.4:
+                params['window']['to_idx'] = rng.choice([n, max(n - 1, 1), -1])
+        elif fr == 'chunk_nonpositive':
+            params['window'] = {'input_chunk_size': rng.choice([0, -1, -5])}
         elif fr == 'copy_number_256':
             for k in range(257):
                 ops.append({'op': 'add', 'lf': lfi['lf'], 'kind': 'zone', 'h': 'cn%d' % k, 'name': 'SAME', 'kwargs': {}})
